@@ -7,7 +7,7 @@ CONSTANTS Alpha, MaxLen, LabelPool
 VARIABLES mode, pos, s, cset, vseq
 A == <<LA>>
 Positions == {"name", "ns", "sub", "help", "const", "var"}
-ClashVL == {x \in UNION {[1..k -> LabelPool] : k \in 0..2} : TRUE}
+ClashVL == UNION {[1..k -> LabelPool] : k \in 0..3}       \* incl. a repeated name with another one in between
 Init == \/ /\ mode = "pos" /\ pos \in Positions /\ s \in StrUpTo(Alpha, MaxLen) /\ cset = {} /\ vseq = <<>>
         \/ /\ mode = "clash" /\ pos = "-" /\ s = <<>> /\ cset \in SUBSET LabelPool /\ vseq \in ClashVL
 Spec == Init /\ [][UNCHANGED <<mode, pos, s, cset, vseq>>]_<<mode, pos, s, cset, vseq>>
